@@ -671,3 +671,87 @@ def check_handler_tables(ctx, rid, filters=('ReindentFilter', 'AlignedIndentFilt
                                f'{c.name}.{attr} also accepts {sorted(cw - w)}: a {c.name} group delimited by that word is not recognised by its own '
                                f'handler (early exit / wrong anchor), so its clause keywords are not laid out')
     ctx.need(n >= 2, f'handler/table agreement: only {n} literal sites found')
+
+
+def check_statement_edges(ctx, rid):
+    """format() joins the formatted statements without a separator.  A layout filter that removes the first or last child of the
+    *statement* (its trailing line break, say) therefore relies on the statement boundary having punctuation on one side.  The
+    splitter ends a statement behind `;` -- and behind the word GO.  Every (edge removal) x (word boundary) pair is an
+    obligation: it can only hold if the filter leaves a separator there."""
+    repo = ctx.repo
+    cg = get_cg(ctx)
+    sp = repo.func('sqlparse.engine.statement_splitter.StatementSplitter.process')
+    word_boundaries = sorted({n.value for n in own_nodes(sp.node) if isinstance(n, ast.Constant) and isinstance(n.value, str) and n.value.isalpha()
+                              and n.value.isupper()})
+    ctx.info['statement_boundaries_behind_a_word'] = word_boundaries
+    n = 0
+    for cname in LAYOUT:
+        c = filter_class(ctx, cname)
+        f = c.methods.get('process')
+        if f is None:
+            continue
+        stmtp = next((p for p in f.params if p not in ('self', 'cls')), None)
+        if stmtp is None:
+            continue
+        gd = Guards(f.node)
+        for e in effects_of(f, cg):
+            if e.kind != 'list-mut' or e.attr not in ('pop', 'del', 'remove') or e.recv != f'{stmtp}.tokens':
+                continue
+            if e.attr == 'pop':
+                idx = src(e.node.args[0]) if e.node.args else '-1'
+            elif e.attr == 'del':
+                idx = src(e.node.targets[0].slice)
+            else:
+                idx = '?'
+            if idx not in ('-1', '0'):
+                continue
+            edge = 'last' if idx == '-1' else 'first'
+            # a replacement inserted at the same edge in the same block counts as keeping a separator
+            blk = gd.stmt_of.get(id(e.node))
+            n += 1
+            if not word_boundaries:
+                ctx.ob(rid, f'{f.short}:{edge}-child', e.loc, f'`{e.detail}` removes the {edge} child of the statement; every statement boundary has '
+                       'punctuation on one side', True)
+                continue
+            for w in word_boundaries:
+                ctx.ob(rid, f'{f.short}:{edge}-child:{w}', e.loc,
+                       f'`{e.detail}` removes the {edge} child of the statement and the neighbouring statement cannot fuse with it across a {w} boundary',
+                       False, f'the splitter ends a statement behind the word {w}; with its trailing whitespace removed and the statements joined without '
+                       f'a separator, `select 1\\n{w}\\nselect 2` is formatted to `select 1 {w}select 2`: two tokens are fused and two statements become one')
+    ctx.ob(rid, 'edges:inventory', 'sqlparse/filters', f'{n} statement-edge removal site(s) in the layout filters examined', True)
+
+
+def check_operator_spacing_tokens(ctx, rid):
+    """use_space_around_operators puts a blank on both sides of every Operator / Comparison token.  The blank must not change how
+    the text lexes: for every operator character c (and every pair) that the table lexes as an operator, `c` followed by a blank is
+    still that operator token, and it is still one when it follows a blank."""
+    from .tables import get_tables
+    from .fold import TT
+    T = get_tables(ctx)
+    OP, CMP = TT(('Operator',)), TT(('Operator', 'Comparison'))
+    cands = [chr(i) for i in range(33, 127) if not chr(i).isalnum()]
+    ops = []
+    for c in cands:
+        r, end, tt = T.lex_one(c + '1', 0)
+        if isinstance(tt, TT) and OP.contains(tt) and end == 1:
+            ops.append(c)
+    words = ops + [a + b for a in ops for b in ops if T.lex_one(a + b + '1', 0)[1] == 2 and isinstance(T.lex_one(a + b + '1', 0)[2], TT)
+                   and OP.contains(T.lex_one(a + b + '1', 0)[2])]
+    ctx.need(len(ops) >= 8, f'only {len(ops)} operator characters found in the rule table')
+    bad = {}
+    for w in words:
+        r0, e0, t0 = T.lex_one(w + '1', 0)
+        r1, e1, t1 = T.lex_one(w + ' 1', 0)
+        if (e1, t1) != (len(w), t0):
+            bad.setdefault(r1.pattern if r1 is not None else '?', []).append((w, repr(t1), e1))
+        r2, e2, t2 = T.lex_one(' ' + w + ' 1', 1)
+        if (e2, t2) != (1 + len(w), t0) and (e1, t1) == (len(w), t0):
+            bad.setdefault(r2.pattern if r2 is not None else '?', []).append((' ' + w, repr(t2), e2))
+    kwloc = T.kwmod.relpath
+    if not bad:
+        ctx.ob(rid, 'operator-spacing', kwloc, f'{len(words)} operator spellings keep their token when a blank is put behind / in front of them', True)
+    for pat, items in sorted(bad.items()):
+        line = next((x.line for x in T.lex if x.pattern == pat), 0)
+        ctx.ob(rid, f'operator-spacing:rule={pat}', f'{kwloc}:{line}', 'an operator followed by a blank is still that operator', False,
+               f'rule {pat!r} takes over for {[i[0] for i in items][:6]}: e.g. `1{items[0][0]}2` is formatted to `1 {items[0][0]} 2`, where '
+               f'`{items[0][0]} 2` lexes as {items[0][1]} -- the operator and everything behind it on the line become another token')
